@@ -219,7 +219,8 @@ pub struct WriteOutcome {
 
 /// Writes the entries with the real grenad writer into a Vec<u8>; panics are data.
 pub fn write_file(cfg: &Cfg, entries: &[Entry]) -> WriteOutcome {
-    let mut w = cfg.builder().memory();
+    // the instrumented sink follows the write schedule of the scenario (whole buffers by default)
+    let mut w = cfg.builder().build(crate::io::Sink::new());
     let mut detail = String::new();
     let r = std::panic::catch_unwind(std::panic::AssertUnwindSafe(|| {
         for (k, v) in entries {
@@ -245,7 +246,7 @@ pub fn write_file(cfg: &Cfg, entries: &[Entry]) -> WriteOutcome {
     }
     let r = std::panic::catch_unwind(std::panic::AssertUnwindSafe(move || w.into_inner()));
     match r {
-        Ok(Ok(bytes)) => WriteOutcome { ins: "ok".into(), fin: "ok".into(), detail, bytes: Some(bytes) },
+        Ok(Ok(sink)) => WriteOutcome { ins: "ok".into(), fin: "ok".into(), detail, bytes: Some(sink.data) },
         Ok(Err(e)) => WriteOutcome { ins: "ok".into(), fin: "err".into(), detail: format!("{}", e), bytes: None },
         Err(e) => WriteOutcome {
             ins: "ok".into(),
